@@ -511,7 +511,7 @@ def check_C12(ctx, rep):
                         sf = src_field(y)
                         return sf is not None and sf[1] == n and sf[2] == fname
                     called = continue_of(S, lambda y: is_call(y, 'Dist::validate') and contains(y, lambda z: reads_field(z) or (isinstance(z, tuple) and z and z[0] == 'fld' and z[3] == fname and z[1][0] == 'var' and z[1][2] == n)))
-                    optional = fl['ty'].startswith('std::option::Option')
+                    optional = 'option::Option<' in fl['ty'][:30]
                     none = optional and any(f[0] == 'variant' and f[2] == 'None' and contains(f[1], lambda z: isinstance(z, tuple) and z and z[0] == 'fld' and z[3] == fname) for f in S)
                     rep.ob('C12.R3', av, 'dist-field:%s.%s' % (n, fname), called or none, 'Dist::validate succeeded on %s.%s%s' % (n, fname, ' (or it is None)' if optional else ''))
     for x in avariants:
@@ -730,9 +730,10 @@ def check_C11(ctx, rep):
     zenc = [cs for (b, f, a, t) in calls(sa_) for cs in [callee_str(f)] if 'ZlibEncoder' in cs]
     rep.ob('C11.R1', fs, 'zlib-pair', any(c.endswith('::new') for c in zdec) and any(c.endswith('::new') for c in zenc), 'decoder calls %s / encoder calls %s' % (zdec, zenc))
     # ---- R2
-    allowed = ('flate2::read::ZlibDecoder::<R>::new', '<flate2::read::ZlibDecoder<R> as std::io::Read>::read')
+    def allowed_use(c):
+        return ('ZlibDecoder' in c) and (c.endswith('ZlibDecoder::<R>::new') or (c.endswith('Read>::read') and 'io::Read' in c))
     for c in zdec:
-        rep.ob('C11.R2', fs, 'decoder-use:' + c.split('::')[-1], c in allowed, 'ZlibDecoder used through %s' % c)
+        rep.ob('C11.R2', fs, 'decoder-use:' + c.split('::')[-1], allowed_use(c), 'ZlibDecoder used through %s' % c)
     rep.count_exact('C11.R2', 'Read::read calls on the decoder', sum(1 for c in zdec if c.endswith('Read>::read')), 1)
     deny = ('read_to_end', 'read_to_string', 'read_exact', '::bytes', 'io::copy', '::take', 'read_vectored', 'BufReader', '::chain', 'read_buf')
     for (b, f, a, t) in calls(fa):
@@ -747,7 +748,7 @@ def check_C11(ctx, rep):
     for (b, f, a, t) in calls(fa):
         for x in a:
             if x[0] == 'ref' and x[1][0] == 'local' and x[1][1] in dec_locals:
-                rep.ob('C11.R2', fs, 'decoder-borrowed-by:' + callee_str(f).split('::')[-1], callee_str(f) in allowed, '%s' % callee_str(f))
+                rep.ob('C11.R2', fs, 'decoder-borrowed-by:' + callee_str(f).split('::')[-1], allowed_use(callee_str(f)), '%s' % callee_str(f))
     for (b, f, a, t) in calls(fa):
         if callee_str(f).endswith('Read>::read') and 'ZlibDecoder' in callee_str(f):
             buf = a[1]
